@@ -247,6 +247,7 @@ class SystemClock(Clock, metaclass=MetaSystemClock):
     def clear(cls):
         '''Remove all pending tasks from the scheduler queue.'''
         if cls.mode == _libsc3.main.NRT_MODE:
+            _libsc3.main._clock_scheduler.clear(cls)
             return
         with cls._sched_cond:
             while not cls._task_queue.empty():
@@ -474,6 +475,7 @@ class AppClock(Clock, metaclass=MetaAppClock):
     def clear(cls):
         '''Remove all pending tasks from the scheduler queue.'''
         if cls.mode == _libsc3.main.NRT_MODE:
+            _libsc3.main._clock_scheduler.clear(cls)
             return
         else:
             with cls._sched_lock:
@@ -541,6 +543,12 @@ class ClockScheduler():
         for _, clock_task in list(self.queue):
             if clock_task.clock is clock:
                 self.add(clock.beats2secs(clock_task.beats), clock_task)
+
+    def clear(self, clock):
+        # Remove the pending tasks of clock as its rt queue's clear does.
+        for _, clock_task in list(self.queue):
+            if clock_task.clock is clock:
+                self.queue.remove(clock_task)
 
     def reset(self):
         self.queue.clear()
@@ -1137,6 +1145,7 @@ class TempoClock(Clock, metaclass=MetaTempoClock):
     def clear(self):
         '''Remove all pending tasks from the scheduler queue.'''
         if self.mode == _libsc3.main.NRT_MODE:
+            _libsc3.main._clock_scheduler.clear(self)
             return
         if self.running():  # and self._run_sched:  # NOTE: Was needed?
             with self._sched_cond:
